@@ -440,7 +440,51 @@ let check_export dd nv (names : string option array) (tables : string array list
           let t = model_table dd k st nv v2l vars r in
           if t <> List.nth orig j then corr "model reading of root %d has table %s, real %s" j t (List.nth orig j))
         roots;
-      stat "model_nodes_read" (List.length st.Model.st_store)));
+      stat "model_nodes_read" (List.length st.Model.st_store);
+      (* the exporter models reproduce the node section byte for byte *)
+      let body_len = String.length file - off - 5 in
+      if export_ok && body_len >= 0 && String.sub file (off + body_len) 5 = ".end\n" then begin
+        let body = String.sub file off body_len in
+        let hs = match scan_header file with Some h -> h | None -> corr "no header" in
+        if hs.h_ascii then begin
+          (* re-print the parsed lines with the model's line printer *)
+          let lines = List.filter (fun l -> l <> "") (String.split_on_char '\n' body) in
+          let anodes =
+            List.map
+              (fun l ->
+                match List.filter (fun t -> t <> "") (String.split_on_char ' ' l) with
+                | [ _; tok; c1; c2 ] when c1 = "0" || c2 = "0" -> Model.ATerm (mbytes_of_string tok)
+                | [ _; tok; c1; c2 ] -> Model.AInner (n_of_string tok, mz_of_string c1, mz_of_string c2)
+                | _ -> corr "unexpected ASCII node line %S" l)
+              lines
+          in
+          let txt = string_of_mbytes (Model.export_ascii_nodes anodes) in
+          if txt <> body then corr "ASCII exporter model prints %S, real node section is %S" txt body;
+          stat "ascii_sections_reprinted" 1
+        end
+        else if List.length dump.dnodes > 0 then begin
+          (* rebuild the exporter's node list from the model importer's unique table *)
+          let pos_of_level l =
+            let rec f i = function [] -> corr "level not in support" | x :: r -> if x = l then i else f (i + 1) r in
+            f 0 slm
+          in
+          let id_of (e : Model.cedge) = match e.Model.ce_ref with Model.RTerm _ -> 1 | Model.RNode i -> int_of_n i + 2 in
+          let xs =
+            Model.XTerm
+            :: List.map
+                 (fun (n : Model.cnode) ->
+                   Model.XInner
+                     ( n_of_int (pos_of_level (int_of_n n.Model.cn_level)),
+                       n_of_int (id_of n.Model.cn_t),
+                       n_of_int (id_of n.Model.cn_e),
+                       n.Model.cn_e.Model.ce_tag ))
+                 st.Model.st_store
+          in
+          let bytes = string_of_mbytes (Model.export_nodes xs) in
+          if bytes <> body then corr "binary exporter model writes a different node section than the real exporter";
+          stat "binary_sections_reproduced" 1
+        end
+      end));
   stat (if o.ascii then "export_ascii" else "export_binary_requested") 1;
   stat ("export_" ^ dd) 1;
   file
